@@ -8,6 +8,7 @@
 //   conf|confp <hexManInfo> <hexInstDesc1> <hexInstDesc2> (confp: given as PROGMEM strings) | txlist <i> <pgn>.. | rxlist <i> <pgn>.. | addhandler <pgn>
 // ops (action):
 //   gf <src> <dst> <prio> <len> <hexdata>   a reassembled 126208 message (hexdata = all bytes the frames carry)
+//   gftp <src> <dst> <len> <hexdata>   the same carried by ISO-TP RTS/CTS (last op of its case; output "tp", judged by the oracle only)
 //   t <ms> | poll | getDevInfo <d> | getInstDesc | getHeartbeat <d> | readResetFlags
 // The oracle states no latency and no order among answers: a request that produced nothing yet stays pending and is judged
 // when its answer arrives at a later poll; it is unanswered only after 1 s of polling (the generator polls until then).
@@ -505,6 +506,33 @@ static void feed(unsigned src, unsigned dst, unsigned prio, unsigned len, const 
   int guard = 0;
   do { N->ParseMessages(); } while (!N->rxq.empty() && ++guard < 10);
 }
+// the same message carried by ISO-TP (RTS/CTS) to one of the node's devices: announce, let the node answer CTS, send the data packets
+static void feedTP(unsigned src, unsigned dst, unsigned len, const std::vector<unsigned char> &data) {
+  unsigned npk = (len + 6) / 7;
+  unsigned long cm = (7UL << 26) | (60416UL << 8) | ((unsigned long)dst << 8) | src, dt = (7UL << 26) | (60160UL << 8) | ((unsigned long)dst << 8) | src;
+  unsigned char b[8] = {16, (unsigned char)(len & 0xff), (unsigned char)(len >> 8), (unsigned char)npk, 0xff, 0x00, 0xED, 0x01};
+  N->rx(cm, 8, b); N->ParseMessages();
+  for (unsigned k = 0; k < npk; k++) { unsigned char f[8]; memset(f, 0xff, 8); f[0] = (unsigned char)(k + 1); for (unsigned j = 0; j < 7 && 7 * k + j < len; j++) f[1 + j] = data[7 * k + j]; N->rx(dt, 8, f); }
+  int guard = 0; do { N->ParseMessages(); } while (!N->rxq.empty() && ++guard < 10);
+}
+// TP-carried request (no selection field, "no change" timing) for a served PGN, addressed to a device: the answer comes by
+// ISO-TP too and must go towards the requester - the announce (TP.CM RTS naming the requested PGN) is addressed to him
+static void oracleTp(unsigned reqSrc, unsigned dst, const std::vector<unsigned char> &p, const std::vector<Frame> &fr) {
+  Req q = readReq(p); int d = devOfAddr(dst);
+  if (!nodeMode() || d < 0 || q.fc != 0 || !q.judged || !q.fields.empty() || q.interval != 0xffffffffU || q.offset != 0xffff) return;
+  if (!(q.pgn == 126464UL || q.pgn == 126996UL || q.pgn == 126998UL)) return;
+  bool toReq = false, toOther = false; unsigned other = 0;
+  for (auto &f : fr) {
+    unsigned long pgn; unsigned src, fd, prio; decodeId(f.id, pgn, src, fd, prio);
+    if (src != dst) continue;
+    if (pgn == 60416UL && (f.buf[0] == 16 || f.buf[0] == 32) && (f.buf[5] | (f.buf[6] << 8) | ((unsigned long)f.buf[7] << 16)) == q.pgn) { if (fd == reqSrc || fd == 255) toReq = true; else { toOther = true; other = fd; } }   // to the requester, or announced to all (PDU2 PGNs)
+    if (pgn == q.pgn || pgn == 126208UL) { if (pgn == 126208UL ? fd == reqSrc : true) toReq = true; }   // answered without TP / by an Acknowledge
+  }
+  C.count("tp_request_judged");
+  if (toOther && !toReq) C.fail("C09:answer-not-to-requester:tp", "TP-carried request %u->%u for PGN %lu: answer announced to %u", reqSrc, dst, q.pgn, other);
+  else if (!toReq) C.fail("C09:unanswered:tp", "TP-carried request %u->%u for PGN %lu not answered", reqSrc, dst, q.pgn);
+  else { caseServed = true; C.nontrivial("tp:" + std::to_string(q.pgn)); }
+}
 static size_t carried(unsigned len) { size_t nfr = len <= 6 ? 1 : 1 + (len - 6 + 6) / 7; return 6 + 7 * (nfr - 1); }
 
 static void exec(const std::string &line0);
@@ -558,6 +586,14 @@ static void exec(const std::string &line0) {
     std::vector<unsigned char> p(d.begin(), d.begin() + len);
     oracleGf(src, dst, p, out);
     if (nodeMode()) checkDeadline();
+    return;
+  }
+  if (w[0] == "gftp" && w.size() == 5) {   // output is not compared (the model has no ISO-TP sender): the oracle judges the answer
+    unsigned src = num(1), dst = num(2), len = num(3); std::vector<unsigned char> d = unhex(w[4]); if (len > d.size()) len = d.size();
+    N->sent.clear(); feedTP(src, dst, len, d);
+    std::vector<Frame> fr = N->sent; N->sent.clear();
+    C.out("tp");
+    oracleTp(src, dst, std::vector<unsigned char>(d.begin(), d.begin() + len), fr);
     return;
   }
   if (w[0] == "t" && w.size() == 2) { g_now += num(1); C.out("ok"); return; }
@@ -807,6 +843,19 @@ static void burstExperiments(Rng &R, bool triples) {
   }
 }
 
+static void newNode(Rng &R, const char *flavor, int ndev, int mode);
+// requests carried by ISO-TP (RTS/CTS to the device): one per node, as its last op (the node's TP answer stays in progress)
+static void tpExperiments(Rng &R, const char *flavor) {
+  for (unsigned long pgn : {126464UL, 126996UL, 126998UL}) {
+    newNode(R, flavor, 1 + (int)R.below(2), -1);
+    size_t d = R.below(cfg.devs.size());
+    auto p = reqHdr(pgn, 0xffffffff, 0xffff, 0);
+    unsigned S = pickReqSrc(R);
+    char b[64]; snprintf(b, sizeof b, "gftp %u %u %zu ", S, cfg.devs[d].src, p.size());
+    exec(std::string(b) + hex(p.data(), p.size()));
+  }
+}
+
 // all function codes x target PGNs x addressed / broadcast / foreign
 static void dispatchSweep(Rng &R) {
   std::vector<unsigned long> pgns(DEDICATED, DEDICATED + 5); for (unsigned long p : OTHER_PGNS) pgns.push_back(p);
@@ -912,6 +961,7 @@ int main(int argc, char **argv) {
     newNode(R, flavor, 2); pairCountSweep(R, C.thorough ? 1 : 9);
     newNode(R, flavor, (int)R.range(1, 3)); malformed(R, C.thorough ? 1500 : 400);
     newNode(R, flavor, 1, (int)R.pick(std::vector<int>{0, 3, 4})); malformed(R, 30);
+    tpExperiments(R, flavor);
   }
   C.sample("per-field experiment: request 60928/126464/126996/126998 with each field matching / differing / carrying another attribute / truncated / repeated / paired with another field / unknown ids");
   C.sample("commands: 60928 every subset of {lower, upper, system instance}; 126998 descriptions ASCII and UCS-2 with read-back request; 126993 interval/offset boundaries and random 32/16-bit values");
